@@ -5,7 +5,7 @@
 From Coq Require Import ZArith List Bool Lia.
 Require Import Spec.Params Spec.Field Spec.Curve Spec.Bytes Spec.Sha256.
 Require Import Model.Base Model.Der Model.Adaptor.
-Require Import Proofs.AdaptorProofs.
+Require Import Proofs.MathFacts Proofs.EcdsaProofs Proofs.SecpConsts Proofs.Toy Proofs.AdaptorProofs Proofs.AdaptorComplete.
 Import ListNotations.
 Local Open Scope Z_scope.
 Notation S := secp256k1.
@@ -223,3 +223,70 @@ Theorem encrypt_rejects_zero_nonce :
     adaptor_encrypt S kind seckey32 encobj msg32 ndata = [AInt 0; ABytes (zeros 162)].
 Proof. exact (encrypt_rejects_zero_nonce S). Qed.
 Print Assumptions encrypt_rejects_zero_nonce.
+
+(* ---- completeness, under the mathematical premises about the curve (explicit hypotheses, not axioms) ---- *)
+(* [MF] An honest DLEQ proof verifies: for a base Y of order dividing n, witness sk and nonce k. *)
+Theorem dleq_complete :
+  MathFacts S ->
+  forall Y sk k,
+    ordn S Y -> 0 <= sk < cn S -> 0 <= k < cn S ->
+    pmul S k (G S) <> None -> pmul S k Y <> None ->
+    let P1 := pmul S sk (G S) in let P2 := pmul S sk Y in
+    let e := dleq_challenge S Y (pmul S k (G S)) (pmul S k Y) P1 P2 in
+    let s := sc_add S (sc_mul S e sk) k in
+    dleq_verify S s e P1 Y P2 = true.
+Proof. intros MF. exact (dleq_complete S MF). Qed.
+Print Assumptions dleq_complete.
+
+(* [MF, InvFacts] encrypt => verify, partial: what encrypt outputs satisfies the verification specification for the
+   signer's public key d*G, the same message and encryption key - PROVIDED the 162 bytes deserialize to the values
+   that were serialized.  Missing for the full statement: the byte round trip of the two compressed points
+   (parse (ser33 R) = R needs Euler's criterion for p, not part of MathFacts).  Y must have order dividing n
+   (true for every point of the real curve, cofactor 1 - a premise here, see DESIGN.md 2.4). *)
+Theorem encrypt_verifies_partial :
+  MathFacts S -> InvFacts S ->
+  forall kind seckey32 encobj msg32 ndata sig Y d,
+    pk_load encobj = Some Y -> ordn S Y -> seckey_of_b32 S seckey32 = Some d ->
+    adaptor_encrypt S kind seckey32 encobj msg32 ndata = [AInt 1; ABytes sig] ->
+    exists R Rp sp e s,
+      sig = adaptor_sig_serialize R Rp sp e s /\
+      (adaptor_sig_deserialize_full S sig = Some (R, fst (sc_of_b32 S (fe_to_b32 (px R))), Rp, sp, e, s) ->
+       adaptor_verify_spec S sig (pmul S d (G S)) (fst (sc_of_b32 S msg32)) Y = true).
+Proof. intros MF IF. exact (encrypt_verifies_partial S MF IF). Qed.
+Print Assumptions encrypt_verifies_partial.
+
+(* [MF, InvFacts] decrypt then recover - from the signature AND from its negated-s twin - returns exactly the
+   decryption key; the decrypted signature is low-S.  For every string whose R.x and s' fields are in range, every
+   decryption key y in [1, n), encryption key object holding y*G. *)
+Theorem recover_decrypt :
+  MathFacts S -> InvFacts S ->
+  forall deckey32 sig162 encobj sigr sp,
+    adaptor_sig_deserialize_part S sig162 = Some (sigr, sp) ->
+    0 < be_val deckey32 < cn S -> pk_load encobj = Some (pmul S (be_val deckey32) (G S)) ->
+    exists s, adaptor_decrypt S deckey32 sig162 = [AInt 1; ABytes (sig_obj sigr s)] /\ sc_is_high S s = false /\
+      adaptor_recover S (sig_obj sigr s) sig162 encobj = [AInt 1; ABytes (sc_to_b32 (be_val deckey32))] /\
+      adaptor_recover S (sig_obj sigr (sc_neg S s)) sig162 encobj = [AInt 1; ABytes (sc_to_b32 (be_val deckey32))].
+Proof. intros MF IF. exact (recover_decrypt S MF IF secp_n_lt_2_256 eq_refl). Qed.
+Print Assumptions recover_decrypt.
+
+(* the premises are satisfiable: on the toy curve y^2 = x^3 + 7 over F_43 (group order 31) they are PROVED, and the
+   theorems hold there unconditionally *)
+Example premises_satisfiable : MathFacts toy /\ InvFacts toy.
+Proof. exact (conj toy_MathFacts toy_InvFacts). Qed.
+Example recover_decrypt_toy :
+  forall deckey32 sig162 encobj sigr sp,
+    adaptor_sig_deserialize_part toy sig162 = Some (sigr, sp) ->
+    0 < be_val deckey32 < cn toy -> pk_load encobj = Some (pmul toy (be_val deckey32) (G toy)) ->
+    exists s, adaptor_decrypt toy deckey32 sig162 = [AInt 1; ABytes (sig_obj sigr s)] /\ sc_is_high toy s = false /\
+      adaptor_recover toy (sig_obj sigr s) sig162 encobj = [AInt 1; ABytes (sc_to_b32 (be_val deckey32))] /\
+      adaptor_recover toy (sig_obj sigr (sc_neg toy s)) sig162 encobj = [AInt 1; ABytes (sc_to_b32 (be_val deckey32))].
+Proof. exact (AdaptorComplete.recover_decrypt toy toy_MathFacts toy_InvFacts eq_refl eq_refl). Qed.
+Example encrypt_verifies_toy :
+  forall kind seckey32 encobj msg32 ndata sig Y d,
+    pk_load encobj = Some Y -> ordn toy Y -> seckey_of_b32 toy seckey32 = Some d ->
+    adaptor_encrypt toy kind seckey32 encobj msg32 ndata = [AInt 1; ABytes sig] ->
+    exists R Rp sp e s,
+      sig = adaptor_sig_serialize R Rp sp e s /\
+      (adaptor_sig_deserialize_full toy sig = Some (R, fst (sc_of_b32 toy (fe_to_b32 (px R))), Rp, sp, e, s) ->
+       adaptor_verify_spec toy sig (pmul toy d (G toy)) (fst (sc_of_b32 toy msg32)) Y = true).
+Proof. exact (AdaptorComplete.encrypt_verifies_partial toy toy_MathFacts toy_InvFacts). Qed.
